@@ -113,8 +113,9 @@ def main(tier=None):
     c.run_suite(Suite("decoder-correspondence", "wire", dec_ops, dec_mon, {"cases": len(dec_ops), "nontrivial": len(dec_ops), "outcomes": kinds}, resets=("dec",)))
     samples.append({"suite": "decoder-correspondence", "ops": dec_ops[:6]})
     from checks import brokerlib
-    scs = brokerlib.corpus(c.rng, ["ids-return-after-recipient-vanished", "setup-workers-survive-panics", "split-length-field-among-many"])
+    scs = brokerlib.corpus(c.rng, ["ids-return-after-recipient-vanished", "setup-workers-survive-panics", "split-length-field-among-many", "fanout-unacked-retransmit", "same-client-id-overlapping-qos2", "suback-unwritable", "connack-unwritable"])
     scs += [brokerlib.gen_abandoned_exchanges(c.rng) for _ in range(3 if c.tier == "quick" else 40)]
+    scs += [brokerlib.gen_answer_lost(c.rng) for _ in range(3 if c.tier == "quick" else 40)]
     brokerlib.run_scenarios(c, "abandoned-exchanges-with-witness", scs, samples)
     c.assumptions += ["the MQTT decoder (module cache) is modelled, not verified", "memory exhaustion and a client that stops READING (writer blocked until its deadline) are outside the model: partial for 'stall'"]
     return c.finish(samples=samples,
